@@ -26,9 +26,34 @@ type c20QueueCase struct {
 	Ops []qop `json:"ops"`
 }
 
+// wide element types: the same history on queues of 5-word and 10-word elements (sizes that are derived from the element
+// size, if any, differ there)
+type wide5 [5]int64
+type wide10 struct {
+	a, b [4]int64
+	s    string
+}
+
 func runC20Queue(c c20QueueCase) Verdict {
-	q := ysgo.VerifNewQueue[int]()
-	var model []int
+	if v := runC20QueueOf(c, func(i int) int { return i }); v.Fail != "" {
+		return v
+	}
+	if len(c.Ops) < 64 { // (the long enumerated words stay on int)
+		if v := runC20QueueOf(c, func(i int) wide5 { return wide5{int64(i), 1, 2, 3, int64(-i)} }); v.Fail != "" {
+			v.Fail = "queue of 5-word elements: " + v.Fail
+			return v
+		}
+		if v := runC20QueueOf(c, func(i int) wide10 { return wide10{a: [4]int64{int64(i)}, s: fmt.Sprint(i)} }); v.Fail != "" {
+			v.Fail = "queue of 10-word elements: " + v.Fail
+			return v
+		}
+	}
+	return runC20QueueOf(c, func(i int) string { return fmt.Sprint("element ", i) })
+}
+
+func runC20QueueOf[T comparable](c c20QueueCase, mk func(int) T) Verdict {
+	q := ysgo.VerifNewQueue[T]()
+	var model []T
 	next := 1
 	// shadow of the documented ring layout, only used to classify cases (never as an oracle)
 	shadowCap, shadowHead, growths, wrappedGrowths := 8, 0, 0, 0
@@ -53,8 +78,8 @@ func runC20Queue(c c20QueueCase) Verdict {
 					shadowCap *= 2
 					shadowHead = 0
 				}
-				q.Enqueue(next)
-				model = append(model, next)
+				q.Enqueue(mk(next))
+				model = append(model, mk(next))
 				next++
 				if v := check("enqueue"); v != nil {
 					return *v
@@ -67,7 +92,7 @@ func runC20Queue(c c20QueueCase) Verdict {
 				want := model[0]
 				model = model[1:]
 				if got != want {
-					return failf("step %d: Dequeue() = %d, want %d (FIFO order broken; %d growths so far)", step, got, want, growths)
+					return failf("step %d: Dequeue() = %v, want %v (FIFO order broken; %d growths so far)", step, got, want, growths)
 				}
 				shadowHead = (shadowHead + 1) % shadowCap
 				if len(model) == 0 {
@@ -81,7 +106,7 @@ func runC20Queue(c c20QueueCase) Verdict {
 			step++
 			if len(model) > 0 {
 				if got := q.Peek(); got != model[0] {
-					return failf("step %d: Peek() = %d, want %d", step, got, model[0])
+					return failf("step %d: Peek() = %v, want %v", step, got, model[0])
 				}
 				if v := check("peek"); v != nil {
 					return *v
@@ -99,7 +124,7 @@ func runC20Queue(c c20QueueCase) Verdict {
 		step++
 		got := q.Dequeue()
 		if got != model[0] {
-			return failf("drain step %d: Dequeue() = %d, want %d", step, got, model[0])
+			return failf("drain step %d: Dequeue() = %v, want %v", step, got, model[0])
 		}
 		model = model[1:]
 		if v := check("drain"); v != nil {
@@ -109,8 +134,8 @@ func runC20Queue(c c20QueueCase) Verdict {
 	// the emptied queue is used again
 	for i := 0; i < 5; i++ {
 		step++
-		q.Enqueue(next)
-		model = append(model, next)
+		q.Enqueue(mk(next))
+		model = append(model, mk(next))
 		next++
 		if v := check("enqueue after the queue was emptied"); v != nil {
 			return *v
@@ -119,7 +144,7 @@ func runC20Queue(c c20QueueCase) Verdict {
 	for len(model) > 0 {
 		step++
 		if got := q.Dequeue(); got != model[0] {
-			return failf("step %d (after the queue was emptied and refilled): Dequeue() = %d, want %d", step, got, model[0])
+			return failf("step %d (after the queue was emptied and refilled): Dequeue() = %v, want %v", step, got, model[0])
 		}
 		model = model[1:]
 		if v := check("second drain"); v != nil {
@@ -422,6 +447,30 @@ func runC20Tokens(c textCase) Verdict {
 	}
 	if len(all) != count {
 		return failf("token stream holds %d tokens, direct lexing gave %d", len(all), count)
+	}
+	// two lexers alive at the same time, asked for tokens in turn (parallel loading, a lexer kept half-read): each gives the
+	// token types it gives alone
+	if len(all) <= 4000 {
+		other := "title: Z\n---\n-> a\n    -> b\n        deep\n    back\nend\n===\n"
+		la, lb := ysgo.VerifNewLexer(antlr.NewInputStream(c.Input)), ysgo.VerifNewLexer(antlr.NewInputStream(other))
+		la.RemoveErrorListeners()
+		lb.RemoveErrorListeners()
+		soloB := ysgo.VerifNewLexer(antlr.NewInputStream(other))
+		soloB.RemoveErrorListeners()
+		doneB := false
+		for i := 0; i < len(all); i++ {
+			ta := la.NextToken()
+			if ta == nil || ta.GetTokenType() != all[i].GetTokenType() {
+				return failf("token %d differs when another lexer is asked for tokens in turn: %s instead of %s", i, name(ta.GetTokenType()), name(all[i].GetTokenType()))
+			}
+			if !doneB {
+				tb, sb := lb.NextToken(), soloB.NextToken()
+				if tb.GetTokenType() != sb.GetTokenType() {
+					return failf("token %d of a second lexer (a fixed script) differs when it runs in turn with the lexer of this input: %s instead of %s", i, name(tb.GetTokenType()), name(sb.GetTokenType()))
+				}
+				doneB = tb.GetTokenType() == antlr.TokenEOF
+			}
+		}
 	}
 	cls := []string{"kind=" + c.Kind, fmt.Sprintf("indents=%d", min(indents, 4))}
 	return Verdict{NonTrivial: indents >= 2, Classes: cls}
